@@ -12,9 +12,40 @@ def replay(cex):
     return wrun.replay_generic(cex)
 
 
+def kernel_contracts(tier):
+    """The glue model replaces the merge kernels by what they are proved to do (cells merged per the kernel's law,
+    bookkeeping counters summed, argument untouched).  Those contracts are C09/C03/C04/C02 obligations; the ones the glue
+    relies on are discharged here as well, so that this check stands on its own (engine K, small shapes)."""
+    import itertools
+    from engine import common, cmh, hhh, realmode
+    import c02
+    import c03
+    import c09
+    cmh.cm()
+    hhh.hh()
+    c02.H()
+    tmo = 300000 if tier == "quick" else 900000
+    obs = [common.Ob("kernel contract: _merge_linear == saturating cell-wise sum, bookkeeping summed, argument untouched (2x2)", c09.ob_linear_merge, (2, 2, tmo), hard_s=tmo / 1000 * 8 + 120, bounds={"width": 2, "depth": 2}),
+           common.Ob("kernel contract: HyperLogLog _merge == element-wise max (m=128)", c02.ob_merge_spec, (128, tmo), hard_s=tmo / 1000 * 6 + 60, bounds={"m": 128}),
+           common.Ob("kernel contract: heavy hitters _merge: counts bounded, bookkeeping summed, argument untouched (1x1, max_key_len 2)", c03.ob_merge_inv, (1, 1, 2, tmo), hard_s=tmo / 1000 * 5 + 120, bounds={"width": 1, "depth": 1, "max_key_len": 2})]
+    for bits in (8, 16):
+        obs.append(common.Ob(f"kernel contract: _merge_log{bits} leaves its argument, sums n_added / n_records (real-idealised)", realmode.ob_merge_ideal, (bits, tmo, "argument untouched"), hard_s=tmo / 1000 * 3 + 120, bounds={"bits": bits}))
+    # partitioned streams: bounded heavy-hitter histories that contain a merge, keys of every length up to max_key_len + 1
+    for skel in c03.HH_SKELS[3]:
+        if not any(o[0] == "merge" for o in skel):
+            continue
+        nadds = sum(1 for o in skel if o[0] == "add")
+        for lens in itertools.product(range(0, 4), repeat=nadds):
+            obs.append(common.Ob(f"kernel contract: merged heavy hitters keep a dominating key, 1x1 mkl=2 {'/'.join(o[0][0] + ''.join(map(str, o[1:])) for o in skel)} lens={lens}", c03.ob_bmc,
+                                 ("dominate", 1, 1, 2, skel, lens, tmo), hard_s=tmo / 1000 * 3 + 120, bounds={"skeleton": [list(o) for o in skel], "key_lens": list(lens)}))
+    return obs
+
+
 if __name__ == "__main__":
     sys.exit(wcheck.run(
         PID, "c08",
         bounds={'items': '3 (2 with all three sketch kinds)', 'n_workers': '1..3 quick, 4 thorough (parallel_merging alone: 1..9)', 'assignment': 'symbolic per item', 'callback returns': 'symbolic 0..10^6'},
         explanation="the real _fill_queue/_worker/_merge_worker/parallel_merging/parallel_add under a synchronous spawn context with a symbolic item->worker assignment: every item reaches the callback once, its adds land in the block of the worker it was assigned to, every worker's block of every sketch kind is merged exactly once into the returned sketch (odd carry included), n_records is the sum of the callback's returns",
+        extra_obs=kernel_contracts,
+        technique="CrossHair symbolic execution (z3) of the real helpers under a synchronous scripted spawn context with shimmed numpy/numba/shared memory; the merge-kernel contracts the glue model relies on are discharged by symbolic execution of Numba typed IR + z3",
         encoded=["helpers._fill_queue", "helpers._worker", "helpers._merge_worker", "helpers.parallel_merging", "helpers.parallel_add", "helpers.attach_shared_memory"]))
